@@ -9,6 +9,7 @@ CONSTANTS
     Dedup = TRUE
     FailCleansUp = TRUE
     MaxDeaths = 0
+    CacheLookup = FALSE
     StopAtFirstError = FALSE
 INVARIANTS
     TypeOK
